@@ -93,7 +93,7 @@ func c10Generate(thorough bool) []c10Case {
 		}
 	}
 	// F2: two / three columns from a reduced alphabet x table constraints
-	red := []string{"", "TEXT COLLATE NOCASE", "INTEGER PRIMARY KEY", "PRIMARY KEY", "UNIQUE", "COLLATE RTRIM UNIQUE", "TEXT PRIMARY KEY DESC", "NOT NULL DEFAULT 'x'", "INT UNIQUE COLLATE NOCASE", "REFERENCES o (x) DEFERRABLE"}
+	red := []string{"", "INTEGER", "TEXT COLLATE NOCASE", "INTEGER PRIMARY KEY", "PRIMARY KEY", "UNIQUE", "COLLATE RTRIM UNIQUE", "TEXT PRIMARY KEY DESC", "NOT NULL DEFAULT 'x'", "INT UNIQUE COLLATE NOCASE", "REFERENCES o (x) DEFERRABLE"}
 	tcs := []string{"PRIMARY KEY (a)", "PRIMARY KEY (b)", "PRIMARY KEY (a DESC)", "PRIMARY KEY (b, a)", "PRIMARY KEY (a, b DESC)", "PRIMARY KEY (a COLLATE NOCASE)", "PRIMARY KEY (a, a)", "PRIMARY KEY (b COLLATE RTRIM DESC, a)",
 		"UNIQUE (a)", "UNIQUE (b)", "UNIQUE (a DESC)", "UNIQUE (a, b)", "UNIQUE (b, a)", "UNIQUE (a COLLATE NOCASE)", "UNIQUE (a COLLATE BINARY)", "UNIQUE (A)", "UNIQUE (b COLLATE RTRIM, a DESC)", "CONSTRAINT cn UNIQUE (a)", "CONSTRAINT cn PRIMARY KEY (a)",
 		"FOREIGN KEY (a) REFERENCES o (x)", "UNIQUE (a) ON CONFLICT REPLACE", "UNIQUE ('a')", "PRIMARY KEY ('b', \"a\" DESC)"}
@@ -117,7 +117,7 @@ func c10Generate(thorough bool) []c10Case {
 			}
 		}
 	}
-	red3 := []string{"", "COLLATE NOCASE", "INTEGER PRIMARY KEY", "UNIQUE", "PRIMARY KEY DESC", "REFERENCES o (x) DEFERRABLE"}
+	red3 := []string{"", "INTEGER", "COLLATE NOCASE", "INTEGER PRIMARY KEY", "UNIQUE", "PRIMARY KEY DESC", "REFERENCES o (x) DEFERRABLE"}
 	tc3 := []string{"PRIMARY KEY (c, a)", "PRIMARY KEY (b)", "UNIQUE (c)", "UNIQUE (a, c DESC)", "UNIQUE (c, b, a)", "UNIQUE (a)", "PRIMARY KEY (a)"}
 	tc3Lists := [][]string{{}}
 	for _, t := range tc3 {
